@@ -333,7 +333,7 @@ Section Sim.
   Qed.
   Lemma poly_disconnected_set_map : forall flag a, poly_disconnected_set flag (map_poly T a) = map Th (poly_disconnected_set flag a).
   Proof.
-    intros flag a. unfold poly_disconnected_set. rewrite poly_rings_map, cycle_nodes_map, map_app, map_hp_map. f_equal.
+    intros flag a. unfold poly_disconnected_set. rewrite poly_rings_map, cycle_nodes_map, (map_app Th), map_hp_map. f_equal.
     destruct flag; [|reflexivity]. destruct a as [s hs]. unfold map_poly. cbn [fst snd].
     rewrite interior_self_nodes_map.
     rewrite (flat_map_map_comm (map T) T _ (interior_self_nodes false)) by (intros; apply interior_self_nodes_map).
@@ -448,9 +448,11 @@ Section Sim.
   Qed.
   Lemma lines_nonsimple_pts_map : forall ls, lines_nonsimple_pts (map (map T) ls) = map Th (lines_nonsimple_pts ls).
   Proof.
-    intros. unfold lines_nonsimple_pts. rewrite map_app. f_equal.
-    - apply flat_map_map_comm. intros. apply line_nonsimple_pts_map.
-    - rewrite pairs_map. apply flat_map_map_comm. intros [a b]. cbn [fst snd]. apply lines_cross_nonsimple_pts_map.
+    intros. unfold lines_nonsimple_pts. apply flat_map_map_comm. intros l.
+    rewrite line_nonsimple_pts_map, others_map, is_dup_map, (dedup_map T (sim_inj _ _ _ S)), map_length, !map_app.
+    f_equal. f_equal.
+    - apply flat_map_map_comm. intros. apply lines_cross_nonsimple_pts_map.
+    - destruct (is_dup l ls && Nat.leb 2 (length (dedup l))); [apply map_hp_map | reflexivity].
   Qed.
   Lemma dup_pts_map : forall l, dup_pts (map T l) = map T (dup_pts l).
   Proof.
